@@ -61,6 +61,7 @@ class Campaign:
     floor_nontrivial: float = 0.0  # minimum fraction of non-trivial cases, else exit 2
     shrink: bool = True
     describe: str = ""
+    post: Optional[Callable] = None  # (out, seed, shard) -> None, runs in the worker after the campaign (e.g. confirm timeouts)
 
 
 @dataclass
@@ -137,6 +138,8 @@ def _run_shard(args):
         camp = {c.name: c for c in mod.campaigns(tier)}[camp_name]
         if camp.kind == "hyp":
             _run_hyp(prop, camp, seed, shard, nshards, out)
+            if camp.post is not None:
+                camp.post(out, seed, shard)
         elif camp.kind == "enum":
             for case in camp.items(shard, nshards):
                 r = camp.evaluate(case)
